@@ -53,7 +53,12 @@ def short_write_cases(res, W, rng, tier, shard, nshards):
 
 def one_short_write(res, W, rng, plen, plan, gen):
     payload = rng.randbytes(plen)
-    w, conn, peer = H.connected_ws()
+    # a third of the cases go through the dispatcher object's send path, as every socket made by WebSocketApp does
+    via_dispatcher = rng.random() < 0.34
+    kw = {"dispatcher": W._dispatcher.DispatcherBase(None, None)} if via_dispatcher else None
+    w, conn, peer = H.connected_ws(ws_kwargs=kw)
+    if via_dispatcher:
+        res.count("short_write_plans_via_dispatcher")
     if isinstance(plan, list):
         conn.write_plan = iter(plan)
         desc = tuple(plan)
@@ -110,8 +115,9 @@ def one_short_write(res, W, rng, plen, plan, gen):
 # (b) concurrent senders / (c) receivers
 
 
-def sender_scenario(W, nthreads, nframes, piece, line_points, with_recv=False):
-    """returns a function(strategy) -> observation dict"""
+def sender_scenario(W, nthreads, nframes, piece, line_points, with_recv=False, slow=None):
+    """returns a function(strategy) -> observation dict.  slow=(send_delay, socket_timeout): every transport write
+    takes virtual time and the socket has a timeout shorter than a whole frame takes."""
 
     def scen():
         S = sched.CURRENT
@@ -119,11 +125,14 @@ def sender_scenario(W, nthreads, nframes, piece, line_points, with_recv=False):
         if with_recv:
             for i in range(3):
                 stream += R.encode(R.PING, b"pg%d" % i) + R.encode(R.TEXT, b"m%d" % i)
-        w, conn, peer = H.connected_ws(after=stream)
+        w, conn, peer = H.connected_ws(after=stream, timeout=(slow[1] if slow else None))
         conn.write_plan = itertools.cycle([piece])
+        if slow:
+            conn.send_delay = slow[0]
         req_len = len(conn.sent)
         errors = []
         got = []
+        timed_out = []
 
         def sender(t):
             for k in range(nframes):
@@ -135,6 +144,11 @@ def sender_scenario(W, nthreads, nframes, piece, line_points, with_recv=False):
                 except BaseException as e:  # noqa
                     if isinstance(e, sched.SimAbort):
                         raise
+                    if slow and isinstance(e, W.WebSocketTimeoutException):
+                        # a send that gives up waiting (for the lock or the transport) is legitimate on a slow transport;
+                        # what it must not do is damage anybody else's frame
+                        timed_out.append((t, k))
+                        continue
                     errors.append((t, k, e))
 
         def receiver():
@@ -153,7 +167,7 @@ def sender_scenario(W, nthreads, nframes, piece, line_points, with_recv=False):
         S.arm(line_points=line_points)
         S.block(lambda: all(a.state == sched.DONE for a in actors), None, why="join")
         S.disarm()
-        return {"conn": conn, "req_len": req_len, "errors": errors, "got": got, "actors": actors}
+        return {"conn": conn, "req_len": req_len, "errors": errors, "got": got, "actors": actors, "timed_out": timed_out}
 
     return scen
 
@@ -215,7 +229,14 @@ def judge_senders(res, obs, S, nthreads, nframes, tag, with_recv=False):
             mid_frame_switch = True
         offp += len(piece)
         prev = actor
+    gave_up = {f"S{t}" for t, k in obs.get("timed_out", [])}
     for name, lst in exp.items():
+        if name in gave_up:
+            # frames of a sender that timed out may be missing; the ones on the wire must be its own, whole and in order
+            it = iter(lst)
+            if not all(any(x == y for y in it) for x in per_thread.get(name, [])) and not issues:
+                issues.append(("frames-lost-or-reordered", f"{name} (timed out once) wrote {per_thread.get(name)!r}, not a subsequence of {lst!r}", {}))
+            continue
         if per_thread.get(name) != lst and not issues:
             issues.append(("frames-lost-or-reordered", f"{name} wrote {per_thread.get(name)!r}, expected {lst!r}", {}))
     if with_recv:
@@ -437,6 +458,9 @@ def run(res, tier, seed, shard, nshards):
     jobs.append(("S", 3, 2, 3, "sweep2-line", 300 if quick else 20000, True))
     jobs.append(("S", 2, 2, 4, "sweep-line", 300 if quick else 100000, True))
     jobs.append(("S", 2, 2, 3, "random", 300 if quick else 5000, True))
+    # slow transport: each write takes 0.05 s, the socket timeout (0.2 s) is shorter than a frame takes
+    jobs.append(("SLOW", 3, 2, 4, "random", 200 if quick else 4000))
+    jobs.append(("SLOW", 3, 1, 4, "dfs", 400 if quick else 10000))
     # receivers
     for nt in (2, 3, 4):
         jobs.append(("R", nt, "random", 250 if quick else 5000))
@@ -460,6 +484,11 @@ def run(res, tier, seed, shard, nshards):
             tag = ("senders", nt, nf, piece, mode, with_recv)
             explore(res, lambda: sender_scenario(W, nt, nf, piece, line, with_recv),
                     lambda obs, S: _js(res, obs, S, nt, nf, tag, with_recv), tag, m, budget, seed * 1000 + ji, "sender_schedules")
+        elif job[0] == "SLOW":
+            _, nt, nf, piece, mode, budget = job
+            tag = ("senders-slow-transport", nt, nf, piece, mode)
+            explore(res, lambda: sender_scenario(W, nt, nf, piece, False, False, slow=(0.05, 0.2)),
+                    lambda obs, S: _js(res, obs, S, nt, nf, tag, False), tag, mode, budget, seed * 1000 + ji, "sender_schedules")
         elif job[0] == "RF":
             _, nt, mode, budget = job
             line = mode.endswith("-line")
